@@ -139,14 +139,26 @@ func main() {
 	if err != nil {
 		die(2, "mktemp: %v", err)
 	}
+	shmBase := ""
+	if st, err := os.Stat("/dev/shm"); err == nil && st.IsDir() {
+		if d, err := os.MkdirTemp("/dev/shm", "vcheck-"+id+"-"); err == nil {
+			shmBase = d
+		}
+	}
 	if !keep {
 		defer os.RemoveAll(tmp)
 	} else {
 		fmt.Fprintln(os.Stderr, "keeping", tmp)
 	}
+	if shmBase != "" {
+		defer os.RemoveAll(shmBase)
+	}
 	exit := func(code int) {
 		if !keep {
 			os.RemoveAll(tmp)
+		}
+		if shmBase != "" {
+			os.RemoveAll(shmBase)
 		}
 		os.Exit(code)
 	}
@@ -243,6 +255,11 @@ func main() {
 				gmp = 1
 			}
 			scratch := filepath.Join(tmp, "scratch", tag)
+			// scratch files of the harnesses (log directories, key files) live on a memory file
+			// system when there is one: the rotate-logger search is bound by file system calls
+			if shmBase != "" {
+				scratch = filepath.Join(shmBase, tag)
+			}
 			os.MkdirAll(scratch, 0o755)
 			cmd.Env = append(os.Environ(),
 				"VRT_OUT="+outDir, "VRT_SHARD="+fmt.Sprintf("%d/%d", j.k, shards), "VRT_SHARD_TAG="+tag,
